@@ -141,7 +141,7 @@ def main(run):
         d, m, n_inner = rnd.choice([1, 2, 3, 4]), rnd.choice([1, 2, 3, 5, 8]), rnd.choice([1, 2, 3])
         names = make_names(rnd.choice(["str", "int", "float"]), d)
         clock = Clock()
-        model = Models(rnd.choice(["scalar", "multi", "grow", "ignore", "positional", "coarse", "coarse"]), names, exact=True, clock=clock)
+        model = Models(rnd.choice(["scalar", "multi", "grow", "ignore", "positional", "coarse", "coarse", "top2", "top2"]), names, exact=True, clock=clock)
         loss = Losses(rnd.choice(["hash", "hash", "sq"]), exact=True, clock=clock)
         mode = rnd.choice(["many", "original", "explain_one", "explain_one_original"])
         # data may carry features that are not explained (the model reads them); not in original mode (statement's precondition)
@@ -222,7 +222,7 @@ def main(run):
         il, sl = rnd.choice([1, 2, 3, 7]), rnd.choice([1, 2, 5, 9])
         names = make_names("str", d)
         clock = Clock()
-        model = Models(rnd.choice(["scalar", "multi", "coarse"]), names, exact=True, clock=clock)
+        model = Models(rnd.choice(["scalar", "multi", "coarse", "top2"]), names, exact=True, clock=clock)
         loss = Losses("hash", exact=True, clock=clock)
         seed = rnd.randrange(2 ** 31)
         random.seed(seed)
